@@ -1,7 +1,8 @@
 #!/bin/sh
-# collect_benign2.sh <Cxx>: copies the round-2 refactorings of a finished sub-agent from its scratch worktree into
-# /verif/benign/<Cxx>-c<N>/ and removes the worktree.  Development tooling.
-id=$1; wt=/root/scratch/wtb2-$id
+# collect_benign2.sh <Cxx> [<worktree-prefix> <suffix-letter>]: copies the refactorings of a finished sub-agent from its scratch
+# worktree (<prefix>-<Cxx>/_benign/N) into /verif/benign/<Cxx>-<letter><N>/ and removes the worktree.  Round 2: wtb2 / c
+# (default); round 3: wtb3 / d.  Development tooling.
+id=$1; pre=${2:-wtb2}; let=${3:-c}; wt=/root/scratch/$pre-$id
 [ -d $wt/_benign ] || { echo "no _benign in $wt"; exit 1; }
-for d in $wt/_benign/*/; do n=$(basename $d); dst=/verif/benign/$id-c$n; rm -rf $dst; mkdir -p $dst; cp -r $d. $dst/; echo "collected $dst: $(head -1 $dst/README.md | cut -c1-120)"; done
+for d in $wt/_benign/*/; do n=$(basename $d); dst=/verif/benign/$id-$let$n; rm -rf $dst; mkdir -p $dst; cp -r $d. $dst/; echo "collected $dst: $(head -1 $dst/README.md | cut -c1-120)"; done
 git -C /repo worktree remove --force $wt
